@@ -44,8 +44,7 @@ From OV Require Proofs.SrcEqMesh.
                                      value of the mesh read into (or 0 beyond its nodes)
      read1_incomplete_line           so a file ending in an incomplete line is read without error and the missing
                                      variables of the last node silently keep stale values (observed on the
-                                     implementation: "1 2 3
-4 5" read into a mesh holding 80..83 gives vars[1] = [5, 81])
+                                     implementation: the file "1 2 3 / 4 5" read into a mesh holding 80..83 gives vars[1] = [5, 81])
      tied_reread_rounded, tied_file_rounded
                                      the step function executed against the implementation on every run (tokens carried
                                      as the numbers they parse to, fmt = the measured table value -> printed value,
